@@ -3,6 +3,7 @@ package optionreflect
 import (
 	"math"
 	"math/bits"
+	"sort"
 	"strconv"
 	"unicode/utf8"
 
@@ -77,7 +78,19 @@ func walkOptionMap(fieldDesc protoreflect.FieldDescriptor, mp protoreflect.Map) 
 		panic("map value is message, not supported")
 	}
 
-	mp.Range(func(key protoreflect.MapKey, val protoreflect.Value) bool {
+	// Range order is random: visit the entries sorted by key so that the
+	// printed file is stable.
+	keys := make([]protoreflect.MapKey, 0, mp.Len())
+	mp.Range(func(key protoreflect.MapKey, _ protoreflect.Value) bool {
+		keys = append(keys, key)
+		return true
+	})
+	sort.Slice(keys, func(i, j int) bool {
+		return keys[i].String() < keys[j].String()
+	})
+
+	for _, key := range keys {
+		val := mp.Get(key)
 		mapVal := walkOptionScalar(fieldDesc.MapValue(), val)
 		keyVal := walkOptionScalar(fieldDesc.MapKey(), key.Value())
 		mapVal.Key = "value"
@@ -91,8 +104,7 @@ func walkOptionMap(fieldDesc protoreflect.FieldDescriptor, mp protoreflect.Map) 
 			},
 		}
 		out.Children = append(out.Children, kvChild)
-		return true
-	})
+	}
 
 	return out
 }
